@@ -187,4 +187,46 @@ theorem refresh_total (r : Run) (hp : r.dev.supportedProps.length ≤ 120) :
 example : construct [] = .error .invalidResponse := rfl
 example : (construct [0xaa,0x22,0xac,0,0,0,0,0,3,3,0xc0,1,0x45,0x66,0,0,0,0x30,0,0x10,4,0x5c,0xff,0x20,0x70,0,0,0,0,0,0,0,0x8b,0xed,0x19]).toOption.isSome = true := by decide +kernel
 
+
+/-! ### histories: any number of operations in a row on the same object -/
+
+/-- the public operations of the property, plus arbitrary changes of the local attributes between them
+    (`tweak`: what setter calls do to the record) -/
+inductive HOp where
+  | refresh | apply | getCapabilities | toggleDisplay | startSelfClean
+  | tweak (f : Dev → Dev)
+
+def stepH (r : Run) : HOp → R Run
+  | .refresh => refresh r
+  | .apply => apply r
+  | .getCapabilities => getCapabilities r
+  | .toggleDisplay => toggleDisplay r
+  | .startSelfClean => startSelfClean r
+  | .tweak f => pure { r with dev := f r.dev }
+
+def runH : Run → List HOp → R Run
+  | r, [] => pure r
+  | r, op :: t => stepH r op >>= fun r1 => runH r1 t
+
+theorem stepH_onlyEmit (r : Run) (op : HOp) : OnlyEmit (stepH r op) := by
+  cases op with
+  | refresh => exact refresh_onlyEmit r
+  | apply => exact apply_onlyEmit r
+  | getCapabilities => exact getCapabilities_onlyEmit r
+  | toggleDisplay => exact toggleDisplay_onlyEmit r
+  | startSelfClean => exact startSelfClean_onlyEmit r
+  | tweak f => exact pure_onlyEmit _
+
+/-- **C14 (histories).** For EVERY sequence of operations on one device object - refresh, apply, capability query,
+    display toggle, self-clean, with arbitrary local attribute changes in between - and EVERY reply script (whatever an
+    earlier response left behind in the object), the sequence can only fail by failing to ENCODE one of its own commands;
+    nothing a device sends makes a later operation raise. -/
+theorem history_contained (ops : List HOp) (r : Run) : OnlyEmit (runH r ops) := by
+  induction ops generalizing r with
+  | nil => exact pure_onlyEmit r
+  | cons op t ih => exact bind_onlyEmit (stepH_onlyEmit r op) (fun r1 => ih r1)
+
+example : ∃ r', runH { dev := {}, replies := [[], [[0xAA]], []], counter := 7, sent := [] } [.refresh, .tweak (fun d => { d with power := true }), .toggleDisplay] = .ok r' :=
+  ⟨_, rfl⟩
+
 end Msmart.Props.C14
